@@ -74,3 +74,27 @@ PROPS["C17"] = dict(
         technique="property-based differential testing (rapid) + native go fuzzing with the same oracle",
     ),
 )
+
+PROPS["C13"] = dict(
+    pkg="c13",
+    level="exploration",
+    rule=("styled text = 1..4 runs of up to 14 characters (letters, several whitespace kinds incl. NBSP/U+2028/tab, newlines, wide, "
+          "combining, astral) each wrapped in 0..3 nested style functions; op in {Wrap, DumbWrap, Pad, Indent, Snip (input pre-wrapped "
+          "to the width, as its callers do), SetLength}; widths 1..40 (and -3..0: no-crash only), heights 1..8. Input and output are "
+          "parsed into (rune, attributes) cells by an independent SGR emulator and compared by the per-function validity predicates of "
+          "DESIGN.md C13. Non-trivial: the case exercises at least one of the classes word-longer-than-width, space-run, explicit "
+          "newline, paragraph-longer-than-width, line-extended, multi-line indent, snip cut/made-room/dropped-blank-line, setlength "
+          "cut/padded. Distinct = distinct (op, tree, width, height, prefix)."),
+    units=[
+        rapid("Prop", "TestProp", 240000, 8000000),
+        fuzz("Fuzz", "FuzzWrap", "120s"),
+    ],
+    manifest=dict(
+        text=("Property-based testing of the six layout functions with cell-level validity predicates (width bound, visible cells "
+              "identical and in order, protected line breaks, no break inside a fitting word, exact shapes for hard-wrap/pad/indent, "
+              "prefix-plus-ellipsis for snip); thorough adds coverage-guided fuzzing with the same predicates. Sampled."),
+        design_ref="DESIGN.md §3 C13",
+        note="Trusted: the SGR emulator in harness/vorc/term.go; whitespace is Unicode White_Space (as the statement's 'whitespace').",
+        technique="property-based testing (rapid) with validity-predicate oracles + native go fuzzing",
+    ),
+)
